@@ -22,22 +22,23 @@ JudgeA ==
       [] Ev.op = "distinct" -> JudgeDistinct(Ev)
       [] OTHER -> "unknown-event"
 JudgeB ==
-    CASE Ev.op = "prf"  /\ Ev.out = "ok" -> DriftPrf(Ev)
-      [] Ev.op = "prf"  /\ Ev.out # "ok" -> DriftPrf(Ev)
+    CASE Ev.op = "prf"  -> DriftPrf(Ev)
       [] Ev.op = "hash" -> DriftHash(Ev)
       [] OTHER -> "ok"
 Judge == IF JudgeA # "ok" THEN JudgeA ELSE IF Layer = "B" THEN JudgeB ELSE "ok"
 
 Running == verdict = "run" /\ l <= Len(Tr)
-Step   == Running /\ Judge = "ok" /\ l' = l + 1 /\ UNCHANGED <<tid, verdict, clause>>
+(* the current event is judged once; "ok" advances, anything else ends the trace with that clause *)
+Step   == /\ Running
+          /\ \E j \in {Judge} :
+                IF j = "ok"
+                THEN l' = l + 1 /\ UNCHANGED <<tid, verdict, clause>>
+                ELSE verdict' = "REJECT" /\ clause' = j /\ UNCHANGED <<tid, l>>
 Finish == /\ verdict = "run" /\ l = Len(Tr) + 1
           /\ verdict' = "ACCEPT" /\ UNCHANGED <<tid, l, clause>>
-Reject == /\ Running /\ Judge # "ok"
-          /\ verdict' = "REJECT" /\ clause' = Judge
-          /\ UNCHANGED <<tid, l>>
 
 TraceInit == tid \in 1..Len(Traces) /\ l = 1 /\ verdict = "run" /\ clause = ""
-TraceNext == Step \/ Finish \/ Reject
+TraceNext == Step \/ Finish
 TraceSpec == TraceInit /\ [][TraceNext]_tvars
 
 Done == verdict # "run" => PrintT(<<"V", Traces[tid].tid, verdict, l, clause>>)
